@@ -98,7 +98,7 @@ func (in *Interp) ubSolver(t *Term, limit uint64) uint64 {
 	ts := in.ts
 	// is t <= limit always?
 	w := t.Sort.W
-	v, _ := in.sol.Check(ts, ts.Ult(ts.Const(w, limit), t), false, nil)
+	v, _ := in.check(ts.Ult(ts.Const(w, limit), t), false, nil)
 	if v != Unsat {
 		return fullHi
 	}
@@ -106,7 +106,7 @@ func (in *Interp) ubSolver(t *Term, limit uint64) uint64 {
 	a, b := lo, limit
 	for a < b {
 		mid := a + (b-a)/2
-		v, _ := in.sol.Check(ts, ts.Ult(ts.Const(w, mid), t), false, nil)
+		v, _ := in.check(ts.Ult(ts.Const(w, mid), t), false, nil)
 		if v == Unsat {
 			b = mid
 		} else {
@@ -330,6 +330,17 @@ func (in *Interp) makeSlice(elem types.Type, ln, cp *Term) SliceV {
 	ts := in.ts
 	in.must(ts.Sle(ts.Const(64, 0), ln), "makeslice: len out of range")
 	in.must(ts.Ule(ln, cp), "makeslice: cap out of range")
+	if !cp.IsConst() && isScalarType(elem) {
+		if ub := in.ubSolver(cp, uint64(in.eng.cfg.MaxAlloc)); ub == fullHi {
+			// size can exceed the physical limit: length-only object (contents
+			// unknown: reads give unconstrained values) — over-approximation
+			in.must(ts.Ule(cp, ts.Const(64, 1<<40)), "makeslice: len out of range")
+			in.objSeq++
+			o := &Obj{id: in.objSeq, elemT: elem, lenOnly: true, phys: 1 << 40}
+			in.note("length-only allocation (size may exceed physical limit)")
+			return SliceV{o, ts.Const(64, 0), ln, cp}
+		}
+	}
 	n := in.physFor(cp, "make")
 	o := in.newObj(elem, n)
 	if isScalarType(elem) {
@@ -434,8 +445,17 @@ func (in *Interp) viewOf(v Value) seqView {
 	return seqView{}
 }
 
+// viewAt reads element k of a view; reads beyond the physical size (only
+// possible at positions that the caller guards with k < len) give zero.
 func (in *Interp) viewAt(s seqView, k *Term) *Term {
-	return in.readCell(s.O, in.ts.Add(s.Off, k)).(*Term)
+	idx := in.ts.Add(s.Off, k)
+	if !s.O.lenOnly {
+		if lo, _ := in.ival(idx); lo >= uint64(len(s.O.E)) {
+			w, _, _ := basicInfo(s.O.elemT)
+			return in.ts.Const(w, 0)
+		}
+	}
+	return in.readCell(s.O, idx).(*Term)
 }
 
 // copyCells: dst[doff+k] = src[k] for k < n ; scalar elements.
